@@ -19,7 +19,7 @@ GROUPS = {
     "C02": [("e2e", ["e2e.order", "e2e.multiplicity"]), ("text_union", ["text_union.members", "text_union.order", "text_union.api_agree"]), ("descendant", ["process_descendant.preorder"]), ("selectors", ["process_selectors.order", "process_selectors.members"])],
     "C03": [("e2e", ["e2e.path"]), ("pointer_text", ["Pointer::key.text", "Pointer::idx.text"]), ("name_lookup", ["process_key.path", "process_key.wrong_member"]),
             ("descendant", ["process_descendant.path"]), ("requery", ["path.requery", "path.injective"])],
-    "C04": [("cmp_struct", ["eq.structural", "lt.order"]), ("e2e_cmp", ["e2e_cmp.members", "e2e_cmp.multiplicity"])],
+    "C04": [("cmp_struct", ["eq.structural", "lt.order"]), ("e2e_cmp", ["e2e_cmp.members", "e2e_cmp.multiplicity"]), ("text_cmp", ["text_cmp.members", "text_cmp.order"])],
     "C05": [("e2e_filter", ["e2e_filter.members", "e2e_filter.multiplicity", "e2e_filter.order"]), ("text_filter", ["text_filter.members", "text_filter.order"])],
     "C08": [("e2e", ["e2e.no_panic", "e2e.ok"]), ("arith", ["process_index.no_panic", "process_slice.no_panic"]), ("regex", ["regex.no_panic"]),
             ("descendant", ["process_descendant.no_panic"]), ("name_lookup", ["process_key.no_panic"]), ("text_arith", ["text_arith.no_panic"]),
